@@ -7,6 +7,7 @@ measured series over growing runs (time ratio per step)."""
 from __future__ import annotations
 
 import concurrent.futures
+import shutil
 import statistics
 
 from harness import common as C
@@ -299,10 +300,38 @@ def session_stream(ctx, stats, rng, thorough):
         for u in roles["readers"]:
             for d in roles["mutators"]:
                 session += [d, u]
+    # specially treated names (the builtins the evaluator folds, API names) bound by one script in every binding form; directly
+    # after it scripts that fold those builtins in pins / delays / arguments / initialisers / conditions.  Only the scripts after
+    # the binder are judged (the binder's own translation is that script's business; most are rejected)
+    shadow = Q.shadow_scripts(rng, thorough)
+    new_users = []
+    for d, us in shadow:
+        for u in us:
+            if u not in distinct and u not in new_users:
+                new_users.append(u)
+    for t, b in zip(new_users, _alone_many(new_users)):
+        distinct[t] = b
+        stats["session:alone:" + (b["exc"] or "accepted")] += 1
+    texts += new_users
+    unjudged = set()
+    for d, us in shadow:
+        if d not in distinct:
+            unjudged.add(d)
+        session += [d] + us
+    stats["session:binder scripts (specially treated names)"] = len(shadow)
     out = C.run_impl("c11_impl.py", {"cases": [["session", session, False]], "limit": 30}, timeout=3600)[0]
     n_eval = len(session) + len(texts)
     leaked = set()
     for i, (t, r) in enumerate(zip(session, out)):
+        if t in unjudged:
+            stats["session:binder:" + (r["exc"] or "accepted")] += 1
+            if r["changed"]:
+                stats["session:module-level object changed"] += 1
+                ctx.disagree("a module-level object of the transpiler changed during parse()+emit() (the model of the process has no such object: memo_possible = false)",
+                             {"script": t, "position in the session": i}, "no module-level object changes", r["changed"])
+            if r["exc"] not in (None, "ValueError", "SyntaxError"):
+                ctx.fail(f"transpiler raised {r['exc']} (neither ValueError nor SyntaxError)", {"kind": "script", "text": t}, "firmware source, ValueError or SyntaxError", r, key="exc-kind:" + str(r["exc"]))
+            continue
         b = distinct[t]
         stats["session:in-process:" + (r["exc"] or "accepted")] += 1
         if r["changed"]:
@@ -355,7 +384,90 @@ def session_stream(ctx, stats, rng, thorough):
                 ctx.disagree("session of list scripts: folded len() values and flash_pattern() contents, model (Lang/FoldSession.v) vs firmware text", texts_m, want, got)
             else:
                 stats["session-tie:equal"] += 1
+    # the fragment Lang/NameSession.v speaks about, through the extracted model (mode = what the inventory of the current source allows)
+    for _ in range(10 if thorough else 3):
+        texts_m, wire = Q.name_session(rng, rng.randint(12, 20))
+        real = C.run_impl("c11_impl.py", {"cases": [["session", texts_m, True]], "limit": 30})[0]
+        n_model += len(texts_m)
+        if any(r["exc"] for r in real):
+            ctx.disagree("a script of the model fragment (top-level defs named len / str / helper, len of string literals) is not accepted", texts_m, "accepted", [r["exc"] for r in real])
+            continue
+        got = [Q.observed_name_folds(r["cpp"], w) for r, w in zip(real, wire)]
+        if ctx.exes.get("C11x"):
+            want = ctx.model([[105, wire]], unit="C11x")[0]
+            want = [[list(o) for o in sc] for sc in want] if want != [2] else None
+            if want != got:
+                ctx.disagree("session of scripts defining functions named like foldable builtins: which len(<literal>) initialisers are folded, model (Lang/NameSession.v) vs firmware text", texts_m, want, got)
+            else:
+                stats["name-session-tie:equal"] += 1
+                stats["name-session-tie:calls folded"] += sum(o[0] for sc in got for o in sc)
     return n_eval + n_model
+
+
+# --------------------------------------------------------------------------- 5b. the user-facing entry point: target(upload=False)
+TARGET_IMPORTS = ("from Reduino import target\nfrom Reduino.Core import pin_mode, digital_write, analog_read, OUTPUT\nfrom Reduino.Communication import SerialMonitor\n"
+                  "from Reduino.Utils import sleep\nfrom Reduino.Actuators import Led, Buzzer, Servo, RGBLed, DCMotor\nfrom Reduino.Displays import LCD\n"
+                  "from Reduino.Sensors import Ultrasonic, Button, Potentiometer\n")
+TARGET_CALLS = ["target(\"COM3\", upload=False)\n", "target(\"/dev/ttyUSB0\", upload=False, platform=\"atmelavr\", board=\"uno\")\n", "target(\"COM3\")\n", ""]
+# bodies that need an external library (Servo; LCD over parallel pins; LCD over I2C) - declared only, used, in every block position -
+# and bodies that need none; the property quantifies over all of them
+LIB_BODIES = [
+    "sv = Servo(9)\n", "sv = Servo(9)\nsv.write(90)\n", "sv = Servo(9, min_angle=10, max_angle=170)\nwhile True:\n    sv.write(45)\n    sleep(500)\n", "sv = Servo(pin=10)\nsv2 = Servo(11)\nsv2.write(0)\n",
+    "lcd = LCD(rs=12, en=11, d4=5, d5=4, d6=3, d7=2)\n", "lcd = LCD(rs=12, en=11, d4=5, d5=4, d6=3, d7=2)\nlcd.write(0, 0, \"hi\")\n", "lcd = LCD(i2c_addr=0x27)\n", "lcd = LCD(i2c_addr=0x3F, cols=20, rows=4)\nlcd.write(0, 1, \"x\")\n",
+    "lcd = LCD(rs=12, en=11, d4=5, d5=4, d6=3, d7=2)\nlcd2 = LCD(i2c_addr=0x27)\n", "sv = Servo(9)\nlcd = LCD(i2c_addr=0x27)\nlcd3 = LCD(rs=12, en=11, d4=5, d5=4, d6=3, d7=2)\nsv.write(10)\nlcd.write(0, 0, \"a\")\n",
+    "led = Led(13)\nsv = Servo(9)\nwhile True:\n    led.toggle()\n    sleep(100)\n", "n = analog_read(\"A0\")\nif n > 100:\n    sv = Servo(9)\n    sv.write(90)\n", "def sweep():\n    sv = Servo(9)\n    sv.write(30)\nsweep()\n",
+    "while True:\n    lcd = LCD(i2c_addr=0x27)\n    lcd.write(0, 0, \"t\")\n    sleep(1000)\n", "for i in range(2):\n    sv = Servo(9)\n    sv.write(i)\n", "try:\n    sv = Servo(9)\nexcept Exception:\n    led = Led(13)\n",
+    "mon = SerialMonitor(9600)\nsv = Servo(9)\nmon.write(sv.read())\n", "lcd = LCD(rs=12, en=11, d4=5, d5=4, d6=3, d7=2, backlight_pin=10)\nlcd.backlight(True)\nlcd.progress(0, 50)\n",
+]
+PLAIN_BODIES = [
+    "led = Led(13)\nled.on()\n", "bz = Buzzer(8)\nbz.play_tone(440, 100)\n", "btn = Button(2)\nled = Led(13)\nwhile True:\n    if btn.is_pressed():\n        led.toggle()\n    sleep(20)\n", "us = Ultrasonic(7, 8)\nmon = SerialMonitor(9600)\nmon.write(us.measure_distance())\n",
+    "mo = DCMotor(3, 4, 5)\nmo.forward(100)\n", "rgb = RGBLed(9, 10, 11)\nrgb.set_color(1, 2, 3)\n", "mon = SerialMonitor(115200)\nmon.write(\"x\")\n", "pin_mode(7, OUTPUT)\ndigital_write(7, 1)\n", "", "x = 1\n",
+    "sv = 5\nlcd = 7\n", "# sv = Servo(9)\nled = Led(3)\n", "s = \"Servo(9)\"\nmon = SerialMonitor(9600)\nmon.write(s)\n",
+]
+BAD_BODIES = ["led = Led(13\n", "sv = Servo(9)\nsv.write(\n", "sv = Servo(9)\nclass A:\n    pass\n", "lcd = LCD(i2c_addr=0x27, rs=1)\n", "sv = Servo(\"x\")\n", "lcd = LCD()\n", "int = 3\nsv = Servo(9)\n", "sv = Servo(9)\nsv.fly()\n"]
+
+
+def target_stream(ctx, stats, rng, thorough, extra_scripts):
+    """every script through Reduino.target("COM3", upload=False) - the call a user's script makes - once on a machine without
+    PlatformIO and once with a `pio` on PATH that records being started: no process may be started, no network touched, and the
+    call ends with the firmware text or ValueError / SyntaxError, as parse()+emit() on the same text do"""
+    scratch = str(C.BUILD / "c11_target")
+    shutil.rmtree(scratch, ignore_errors=True)
+    texts = []
+    for i, b in enumerate(LIB_BODIES):
+        for j, tc in enumerate(TARGET_CALLS if thorough else [TARGET_CALLS[0], TARGET_CALLS[(i % 3) + 1]]):
+            texts.append(("lib", TARGET_IMPORTS + tc + b))
+    for i, b in enumerate(PLAIN_BODIES):
+        texts.append(("plain", TARGET_IMPORTS + TARGET_CALLS[i % len(TARGET_CALLS)] + b))
+    for i, b in enumerate(BAD_BODIES):
+        texts.append(("rejected", TARGET_IMPORTS + TARGET_CALLS[0] + b))
+    for t in extra_scripts:
+        texts.append(("hostile", t))
+    cases = [["target", t, pio, scratch] for _, t in texts for pio in ("absent", "fake")]
+    out = C.run_impl("c11_impl.py", {"cases": cases, "limit": 30}, timeout=3600)
+    k = 0
+    for kind, t in texts:
+        for pio in ("absent", "fake"):
+            r = out[k]
+            k += 1
+            stats[f"target:{kind}:pio {pio}:" + (r["exc"] or "returned " + str(r["returned"]))] += 1
+            case = {"kind": "target", "text": t, "pio": pio, "call": "Reduino.target(\"COM3\", upload=False) with the text as the __main__ file"}
+            if r["proc"] or r["pio_ran"]:
+                ctx.fail("target(upload=False) - transpile only - started an external process / touched the network" + (" (the `pio` on PATH was run: " + r["pio_ran"].strip() + ")" if r["pio_ran"] else ""),
+                         case, "no process, no network access", {"audit events": r["proc"], "pio ran with": r["pio_ran"], "outcome": r["exc"] or "returned"}, key="target-process:" + (r["proc"][0][0] if r["proc"] else "pio"))
+            if r.get("env"):
+                ctx.fail("target(upload=False) read the process environment", case, "no environment access (REDUINO_VERIF and tempfile's TMPDIR / TEMP / TMP excepted)", r["env"], key="target-env:" + r["env"][0])
+            if r["exc"] == "Timeout":
+                ctx.fail("target(upload=False) did not terminate within the (generous) limit", case, "prompt termination", r, key="target-timeout")
+            elif r["exc"] not in (None, "ValueError", "SyntaxError"):
+                ctx.fail(f"target(upload=False) raised {r['exc']} (neither firmware source nor ValueError / SyntaxError)" + ("; parse()+emit() accept the text" if r["alone"] is None else ""),
+                         case, "firmware source, ValueError or SyntaxError", r, key="target-exc:" + str(r["exc"]))
+            elif r["exc"] is None and r["returned"] != "str":
+                ctx.fail("target(upload=False) returned something that is not the firmware text", case, "str", r, key="target-return")
+            elif (r["exc"] is None) != (r["alone"] is None):
+                ctx.disagree("target(upload=False) and parse()+emit() disagree on whether the text is accepted", case, r["alone"] or "accepted", r["exc"] or "accepted")
+    shutil.rmtree(scratch, ignore_errors=True)
+    return len(cases)
 
 
 # --------------------------------------------------------------------------- 6. pieces that refer to each other (function variants)
